@@ -122,6 +122,19 @@ def shards(tier):
         for blk in CONST:
             out.append({'block': blk, 'aw': W, 'rws': [W, W + 1], 'corner': 1})
         out.append({'block': 'CountLeadingZeros', 'aw': W, 'rws': [sh], 'corner': 1})
+    # life cycle: the simulator is first obtained on the empty system, then the block is added and it is obtained again
+    for blk, opts in BINARY.items():
+        d = {'block': blk}
+        d.update(opts[0])
+        d.update({'aw': 2, 'rw': 2, 'bws': [2], 'early': 1})
+        out.append(d)
+    for blk, opts in UNARY.items():
+        d = {'block': blk}
+        d.update(opts[0])
+        d.update({'aw': 2, 'rws': [2, 3], 'early': 1})
+        out.append(d)
+    for blk in CONST:
+        out.append({'block': blk, 'aw': 2, 'rws': [2], 'early': 1})
     for aw in range(1, (12 if T else 9) + 1):
         out.append({'block': 'CountLeadingZeros', 'aw': aw, 'rws': [1, 2, 3, 4, 5]})
     for aw in range(1, (11 if T else 8) + 1):
